@@ -318,3 +318,135 @@ def pat_str(p):
     if k == "tuple":
         return "(" + ",".join(pat_str(q) for q in p["pats"]) + ")"
     return k or "?"
+
+
+# --------------------------------------------------------------------------- effect paths
+
+class Path:
+    __slots__ = ("conds", "effects", "done", "loops", "result")
+
+    def __init__(self, conds=(), effects=(), done=None, loops=0, result=None):
+        self.conds = conds        # tuple of Cond
+        self.effects = effects    # tuple of nodes (in evaluation order)
+        self.done = done          # None | 'ret' | 'try-err' | 'break' | 'continue' | 'diverge'
+        self.loops = loops
+        self.result = result      # value node for 'ret' / tail
+
+    def then(self, other):
+        return Path(self.conds + other.conds, self.effects + other.effects, other.done, self.loops + other.loops, other.result)
+
+
+MAX_PATHS = 20000
+
+
+class TooManyPaths(Exception):
+    pass
+
+
+def effect_paths(node, is_effect):
+    """all control-flow paths through a loop-free expression with the ordered effects on each.
+    `?` forks into a continuing path and a terminated ('try-err') path; loops are entered once
+    and counted (rules reject paths with loops where order matters)."""
+    def seq(paths, nxt):
+        out = []
+        for p in paths:
+            if p.done:
+                out.append(p)
+            else:
+                for q in nxt():
+                    out.append(p.then(q))
+                    if len(out) > MAX_PATHS:
+                        raise TooManyPaths()
+        return out
+
+    def many(nodes):
+        paths = [Path()]
+        for n in nodes:
+            paths = seq(paths, lambda n=n: go(n))
+        return paths
+
+    def go(n):
+        k = n.get("k")
+        if k == "block":
+            paths = [Path()]
+            for s in n.get("stmts", []):
+                if s["k"] == "let":
+                    if "init" in s:
+                        paths = seq(paths, lambda s=s: go(s["init"]))
+                    if "els" in s:
+                        def branch(s=s):
+                            a = [Path(conds=(Cond("let", pat=s["pat"], init=s.get("init"), pol=True),))]
+                            b = [Path(conds=(Cond("let", pat=s["pat"], init=s.get("init"), pol=False),)).then(q) for q in go(s["els"])]
+                            return a + b
+                        paths = seq(paths, branch)
+                else:
+                    paths = seq(paths, lambda s=s: go(s["e"]))
+            if "expr" in n:
+                paths = seq(paths, lambda: [Path(p.conds, p.effects, p.done, p.loops, p.result if p.done else n["expr"]) for p in go(n["expr"])])
+            return paths
+        if k == "if":
+            def branches():
+                out = []
+                for pol, key in ((True, "then"), (False, "else")):
+                    cs = tuple(split_cond(n["cond"], pol))
+                    if key in n:
+                        out.extend(Path(conds=cs).then(q) for q in go(n[key]))
+                    else:
+                        out.append(Path(conds=cs))
+                return out
+            return seq(go(n["cond"]), branches)
+        if k == "match":
+            def arms():
+                out = []
+                prior = []
+                for a in n["arms"]:
+                    mc = Cond("match", scrut=n["scrut"], pat=a["pat"], prior=list(prior), guard=a.get("guard"))
+                    out.extend(Path(conds=(mc,)).then(q) for q in go(a["body"]))
+                    prior.append(a["pat"])
+                return out
+            return seq(go(n["scrut"]), arms)
+        if k == "ret":
+            ps = go(n["e"]) if "e" in n else [Path()]
+            return [p if p.done else Path(p.conds, p.effects, "ret", p.loops, n.get("e")) for p in ps]
+        if k == "break":
+            ps = go(n["e"]) if "e" in n else [Path()]
+            return [p if p.done else Path(p.conds, p.effects, "break", p.loops) for p in ps]
+        if k == "continue":
+            return [Path(done="continue")]
+        if k == "try":
+            out = []
+            for p in go(n["e"]):
+                if p.done:
+                    out.append(p)
+                else:
+                    out.append(Path(p.conds + (Cond("try", e=n["e"], pol=True),), p.effects, None, p.loops))
+                    out.append(Path(p.conds + (Cond("try", e=n["e"], pol=False),), p.effects, "try-err", p.loops, n["e"]))
+            return out
+        if k == "closure":
+            return [Path(effects=(n,))] if is_effect(n) else [Path()]
+        if k == "loop":
+            out = []
+            for p in go(n["body"]):
+                d = None if p.done in ("break", "continue") else p.done
+                out.append(Path(p.conds, p.effects, d, p.loops + 1))
+            return out
+        if k in ("call", "mcall"):
+            nodes = ([n["f"]] if k == "call" else []) + H.call_args(n)
+            ps = many(nodes)
+            if is_effect(n):
+                ps = seq(ps, lambda: [Path(effects=(n,))])
+            if n.get("ty") == "!":
+                ps = [p if p.done else Path(p.conds, p.effects, "diverge", p.loops) for p in ps]
+            return ps
+        if k in ("assign", "assignop"):
+            ps = many([n["r"], n["l"]])
+            if is_effect(n):
+                ps = seq(ps, lambda: [Path(effects=(n,))])
+            return ps
+        ch = H.children(n)
+        ps = many(ch)
+        if is_effect(n):
+            ps = seq(ps, lambda: [Path(effects=(n,))])
+        return ps
+
+    return go(node)
